@@ -1,10 +1,13 @@
 // C32 — gossipsub backoff storage: a backoff is never shortened.
 // HashMap/HashSet -> dependency shim; Instant::now -> controllable clock;
-// BackoffStorage::heartbeats (128-bit div_ceil, out of CBMC's reach) is replaced by
-// an over-approximating contract stub: ANY slot count (the safety clauses below
-// must hold whatever slot a pair is filed under).
+// BackoffStorage::heartbeats (128-bit div_ceil, out of CBMC's reach; proved by the Verus
+// group of this unit) is replaced by an over-approximating stub: ANY slot count (the
+// safety clauses below must hold whatever slot a pair is filed under).
 // wf: every (topic, peer) in `backoffs` carries a slot index < len and that slot
 // contains the pair.  One step from ANY wf state: 1 topic, <= 2 peers, 3 slots.
+// Cost notes (measured): the state is built and inspected through CONCRETE slot
+// indices (case splits), the topic is the empty string (no heap traffic in
+// TopicHash::clone), results are mem::forgotten.
 include!(concat!(env!("LIBP2P_VERIF"), "/shims/clock.rs"));
 include!(concat!(env!("LIBP2P_VERIF"), "/shims/tracing_off.rs"));
 
@@ -18,27 +21,43 @@ fn heartbeats_any(_d: &Duration, _hb: &Duration) -> usize {
 }
 
 fn topic() -> TopicHash {
-    TopicHash::from_raw("t")
+    TopicHash::from_raw("")
 }
 fn peer(b: u8) -> PeerId {
     PeerId::from_bytes(&[0, 1, b]).unwrap()
 }
 
-struct St {
-    s: BackoffStorage,
-    present: [bool; 2],
-    until: [(u64, u32); 2],
+fn slot_insert(s: &mut BackoffStorage, idx: usize, p: &PeerId) {
+    match idx {
+        0 => s.backoffs_by_heartbeat[0].insert((topic(), *p)),
+        1 => s.backoffs_by_heartbeat[1].insert((topic(), *p)),
+        _ => s.backoffs_by_heartbeat[2].insert((topic(), *p)),
+    };
+}
+fn slot_contains(s: &BackoffStorage, idx: usize, p: &PeerId) -> bool {
+    match idx {
+        0 => s.backoffs_by_heartbeat[0].contains(&(topic(), *p)),
+        1 => s.backoffs_by_heartbeat[1].contains(&(topic(), *p)),
+        2 => s.backoffs_by_heartbeat[2].contains(&(topic(), *p)),
+        _ => false,
+    }
 }
 
-fn any_state() -> St {
+struct St {
+    s: BackoffStorage,
+    p: [PeerId; 2],
+    present: [bool; 2],
+    idx: [usize; 2],
+}
+
+/// any wf state with <= 2 backed-off peers of one topic; `hb` = current heartbeat slot
+fn any_state(hb: usize) -> St {
     let mut slots = Vec::with_capacity(SLOTS);
     let mut i = 0;
     while i < SLOTS {
         slots.push(HashSet::new());
         i += 1;
     }
-    let hb: usize = kani::any();
-    kani::assume(hb < SLOTS);
     let interval_s: u64 = kani::any();
     kani::assume(interval_s >= 1 && interval_s <= 3600);
     let slack: u32 = kani::any();
@@ -50,47 +69,62 @@ fn any_state() -> St {
         heartbeat_interval: Duration::from_secs(interval_s),
         backoff_slack: slack,
     };
+    let p = [peer(0), peer(1)];
     let mut present = [false; 2];
-    let mut until = [(0u64, 0u32); 2];
-    let mut p = 0;
-    while p < 2 {
+    let mut idx = [0usize; 2];
+    let mut k = 0;
+    while k < 2 {
         if kani::any() {
-            let (sec, ns, inst) = clock::any_instant(HORIZON);
-            let idx: usize = kani::any();
-            kani::assume(idx < SLOTS);
-            s.backoffs.entry(topic()).or_default().insert(peer(p as u8), (inst, HeartbeatIndex(idx)));
-            s.backoffs_by_heartbeat[idx].insert((topic(), peer(p as u8)));
-            present[p] = true;
-            until[p] = (sec, ns);
+            let (_, _, inst) = clock::any_instant(HORIZON);
+            let i: usize = kani::any();
+            kani::assume(i < SLOTS);
+            s.backoffs.entry(topic()).or_default().insert(p[k], (inst, HeartbeatIndex(i)));
+            slot_insert(&mut s, i, &p[k]);
+            present[k] = true;
+            idx[k] = i;
         }
-        p += 1;
+        k += 1;
     }
-    St { s, present, until }
+    St { s, p, present, idx }
 }
 
-fn stored(s: &BackoffStorage, p: u8) -> Option<(u64, u32)> {
-    s.get_backoff_time(&topic(), &peer(p)).map(|i| {
+fn stored(s: &BackoffStorage, p: &PeerId) -> Option<(u64, u32)> {
+    s.get_backoff_time(&topic(), p).map(|i| {
         let d = i.duration_since(clock::zero());
         (d.as_secs(), d.subsec_nanos())
     })
 }
 
-fn wf(s: &BackoffStorage) -> bool {
-    let mut p = 0u8;
-    while p < 2 {
-        if let Some(m) = s.backoffs.get(&topic()) {
-            if let Some((_, idx)) = m.get(&peer(p)) {
-                if idx.0 >= s.backoffs_by_heartbeat.len() {
-                    return false;
-                }
-                if !s.backoffs_by_heartbeat[idx.0].contains(&(topic(), peer(p))) {
-                    return false;
-                }
+/// representation invariant (the same one any_state generates): a pair is filed in
+/// exactly the slot its stored index names, and slots hold no pair without a backoff
+fn wf(st: &St) -> bool {
+    let mut k = 0;
+    while k < 2 {
+        let idx = match st.s.backoffs.get(&topic()) {
+            Some(m) => m.get(&st.p[k]).map(|(_, i)| i.0),
+            None => None,
+        };
+        if let Some(i) = idx {
+            if i >= st.s.backoffs_by_heartbeat.len() {
+                return false;
             }
         }
-        p += 1;
+        let mut j = 0;
+        while j < SLOTS {
+            if slot_contains(&st.s, j, &st.p[k]) != (idx == Some(j)) {
+                return false;
+            }
+            j += 1;
+        }
+        k += 1;
     }
     true
+}
+
+fn any_hb() -> usize {
+    let hb: usize = kani::any();
+    kani::assume(hb < SLOTS);
+    hb
 }
 
 tracing_off! {
@@ -100,24 +134,29 @@ tracing_off! {
 #[kani::stub(BackoffStorage::heartbeats, heartbeats_any)]
 fn update_backoff_never_shortens() {
     let now = clock::set_any(HORIZON);
-    let mut st = any_state();
+    let mut st = any_state(any_hb());
     let d = Duration::new(kani::any::<u32>() as u64, kani::any::<u32>() % 1_000_000_000);
-    let before0 = stored(&st.s, 0);
-    let before1 = stored(&st.s, 1);
-    st.s.update_backoff(&topic(), &peer(0), d);
+    let before0 = stored(&st.s, &st.p[0]);
+    let before1 = stored(&st.s, &st.p[1]);
+    st.s.update_backoff(&topic(), &st.p[0], d);
     let due = Duration::new(now.0, now.1) + d;
     let due = (due.as_secs(), due.subsec_nanos());
-    let after0 = stored(&st.s, 0);
-    // the peer is backed off at least until max(previous, now + d)
-    assert!(st.s.is_backoff_with_slack(&topic(), &peer(0)));
-    match before0 {
-        Some(b) => assert!(after0 == Some(if b < due { due } else { b })),
-        None => assert!(after0 == Some(due)),
+    let after0 = stored(&st.s, &st.p[0]);
+    // the peer is backed off at least until now + d, and never less than before
+    assert!(st.s.is_backoff_with_slack(&topic(), &st.p[0]));
+    match after0 {
+        Some(a) => {
+            assert!(a >= due);
+            if let Some(b) = before0 {
+                assert!(a >= b);
+            }
+        }
+        None => assert!(false),
     }
     // frame: the other peer's backoff is untouched
-    assert!(stored(&st.s, 1) == before1);
-    assert!(wf(&st.s));
-    let _ = (st.present, st.until);
+    assert!(stored(&st.s, &st.p[1]) == before1);
+    assert!(wf(&st));
+    std::mem::forget(st);
 }
 }
 
@@ -127,29 +166,64 @@ tracing_off! {
 #[kani::stub(std::time::Instant::now, clock::now)]
 fn heartbeat_forgets_only_expired() {
     let now = clock::set_any(HORIZON);
-    let mut st = any_state();
-    let hb0 = st.s.heartbeat_index.0;
+    let hb0 = any_hb();
+    let mut st = any_state(hb0);
     let slack = st.s.heartbeat_interval * st.s.backoff_slack;
-    let before = [stored(&st.s, 0), stored(&st.s, 1)];
+    let before = [stored(&st.s, &st.p[0]), stored(&st.s, &st.p[1])];
     st.s.heartbeat();
+    // the index advances by one: every slot is visited once per `len` heartbeats
     assert!(st.s.heartbeat_index.0 == (hb0 + 1) % SLOTS);
-    let mut p = 0;
-    while p < 2 {
-        if let Some(b) = before[p] {
-            let expired = Duration::new(b.0, b.1) + slack <= Duration::new(now.0, now.1);
-            let after = stored(&st.s, p as u8);
-            // a pair is forgotten ONLY if its backoff plus the slack has passed; otherwise untouched
+    let mut k = 0;
+    while k < 2 {
+        let after = stored(&st.s, &st.p[k]);
+        if let Some(b) = before[k] {
+            let t_now = Duration::new(now.0, now.1);
+            let elapsed = Duration::new(b.0, b.1) <= t_now;
+            let expired = Duration::new(b.0, b.1) + slack <= t_now;
+            // never forgotten (nor changed) before the backoff has elapsed ...
+            if !elapsed {
+                assert!(after == before[k]);
+                assert!(st.s.is_backoff_with_slack(&topic(), &st.p[k]));
+            }
+            // ... nor before the slack has passed as well
             if !expired {
-                assert!(after == before[p]);
-            } else {
-                assert!(after.is_none() || after == before[p]);
+                assert!(after == before[k]);
+            }
+            // forgotten or untouched, nothing else
+            assert!(after.is_none() || after == before[k]);
+            // "eventually forgets": expired plus slack and filed under the visited slot => gone
+            if expired && st.idx[k] == hb0 {
+                assert!(after.is_none());
+                assert!(!st.s.is_backoff_with_slack(&topic(), &st.p[k]));
             }
         } else {
-            assert!(stored(&st.s, p as u8).is_none());
+            assert!(after.is_none());
         }
-        p += 1;
+        k += 1;
     }
-    assert!(wf(&st.s));
+    assert!(wf(&st));
+    std::mem::forget(st);
+}
+}
+
+/// a backoff so long that instant + slack is not representable as an Instant is still a
+/// backoff that has not elapsed: the heartbeat visiting its slot must keep it
+tracing_off! {
+#[kani::proof]
+#[kani::unwind(6)]
+#[kani::stub(std::time::Instant::now, clock::now)]
+fn heartbeat_keeps_backoff_beyond_instant_range() {
+    clock::set_any(HORIZON);
+    let mut st = any_state(0);
+    kani::assume(!st.present[0] && !st.present[1]);
+    kani::assume(st.s.backoff_slack >= 1);
+    // stored by an earlier update_backoff whose now + d was still representable
+    let far = clock::at(i64::MAX as u64, 0);
+    st.s.backoffs.entry(topic()).or_default().insert(st.p[0], (far, HeartbeatIndex(0)));
+    slot_insert(&mut st.s, 0, &st.p[0]);
+    st.s.heartbeat();
+    assert!(st.s.is_backoff_with_slack(&topic(), &st.p[0]));
+    std::mem::forget(st);
 }
 }
 
@@ -160,9 +234,10 @@ tracing_off! {
 #[kani::stub(std::time::Instant::now, clock::now)]
 fn canary_heartbeat_forgets_everything() {
     clock::set_any(HORIZON);
-    let mut st = any_state();
-    kani::assume(st.present[0]);
+    let mut st = any_state(0);
+    kani::assume(st.present[0] && !st.present[1]);
     st.s.heartbeat();
-    assert!(stored(&st.s, 0).is_none());
+    assert!(stored(&st.s, &st.p[0]).is_none());
+    std::mem::forget(st);
 }
 }
